@@ -432,6 +432,7 @@ def function_level(ctx, worlds):
         ctx.dist('pairs_of_parent', min(n_pairs, 10))
         ctx.dist('has_pair_short_of_target', short)
         ctx.dist('desperate_genes', min(nd, 5))
+        ctx.dist('genes_chosen_by_the_loop', min(max(ng - nd, 0), 12))
         if o['ok'] and not corr:
             ctx.traces_validated += 1
         if nontriv:
@@ -688,6 +689,14 @@ def run(ctx):
 
 def replay(ctx, rec):
     import shutil
+    try:
+        return _replay(ctx, rec)
+    finally:
+        shutil.rmtree(ctx.scratch, ignore_errors=True)
+
+
+def _replay(ctx, rec):
+    import shutil
     world = rec.get('world')
     if world is None:
         print(json.dumps(rec, indent=1)[:4000])
@@ -710,5 +719,4 @@ def replay(ctx, rec):
         print('RESULT', what)
     if len(ctx.violations) == before and not ctx.known_hits:
         print('RESULT implementation, model and property agree on this input')
-    shutil.rmtree(ctx.scratch, ignore_errors=True)
     return 1 if len(ctx.violations) > before else 0
